@@ -35,7 +35,10 @@ EXPLANATION = (
     'the upper corner up / the lower corner down (L8); the two-sided bound '
     'step is the affine map sending the violated extremes onto the bounds and '
     'is the identity on feasible kernels, one-sided steps are gated shifts '
-    '(L7); min/max roles are coherent (P1, P2). The loops of the strict '
+    '(L7); min/max roles are coherent (P1, P2); the violation maxima of the '
+    'strict steps are taken per unit (X1, shared with C09); a trapezoid repair '
+    'on a pair that monotonicity of the conditional feature pins to equality '
+    'must be exact, not a dominating maximum (L9). The loops of the strict '
     'repairs cover every pair of adjacent vertices (A5).')
 ASSUMPTIONS = ['tf.maximum/minimum/reduce_max/reduce_min semantics',
                'configurations rejected by verify_hyperparameters do not occur']
@@ -47,6 +50,7 @@ def run(prog, res):
   _wiring(prog, res)
   _order(prog, res)
   affine_rules.check_local_repairs(prog, res)
+  affine_rules.check_opposed_pairs(prog, res)
   affine_rules.check_bounds_map(prog, res)
   affine_rules.check_A4_strict(prog, res)
   res.floor('A4', 5)
@@ -72,6 +76,10 @@ def run(prog, res):
     roles.check_function_roles(prog, res, f)
     roles.check_clip_polarity(prog, res, f)
   numeric_opts.check(prog, res, fns)
+  # 'separately for each unit': the per-unit reductions of the strict steps
+  from . import C09
+  C09._x1_lattice(prog, res)
+  res.floor('X1', 10)
   res.floor('W1', 60)
   res.floor('W3', 6)
   res.floor('W4', 6)
@@ -124,8 +132,7 @@ def _wiring(prog, res):
   C03.wiring.check_constrained_weight(
       prog, res, build, 'LATTICE_KERNEL_NAME', lc,
       implications=C03.IMPLICATIONS,
-      covered_elsewhere={'num_iterations': 'zero iterations is an explicit '
-                                           'request for no iterative step'})
+      covered_elsewhere={})
   fin = prog.function('lattice_layer.Lattice.finalize_constraints')
   res.analysed(fin)
   good = False
@@ -163,7 +170,7 @@ def _wiring(prog, res):
   C03._implications_hold(prog, res)
   dyk = prog.function(LL + '.project_by_dykstra')
   fin_lib = prog.function(LL + '.finalize_constraints')
-  for target, cov in ((dyk, {'num_iterations': 'explicit request'}),
+  for target, cov in ((dyk, {}),
                       (fin_lib, {'output_min': 'clipped after the guarded '
                                                'block (W4)',
                                  'output_max': 'same'})):
